@@ -1040,6 +1040,8 @@ class SymFrame(_RowsMixin, SymBase):
             return self._with(cols=[(k, self.col(k)) for k in key])
         if isinstance(key, slice):
             raise Unsupported("frame slice")
+        if isinstance(key, SymFrame):
+            return self.where(key)  # frame[boolean frame]: cells where the mask is False become NaN
         if isinstance(key, SymBase):
             raise Unsupported("frame getitem sym")
         return self._series(key)
